@@ -485,3 +485,124 @@ Fixpoint ptree_eqb (t u : ptree) : bool :=
   end.
 
 Definition ptree_eq_mod_order (t u : ptree) : bool := ptree_eqb (pcanon t) (pcanon u).
+
+(** ** Set semantics of a process tree (which SETS of events a run can produce)
+    Leaf e: {e}; tau: {}; 'X': one child; '+': the union of one admitted set per child; '->' behaves
+    like '+' for sets; 'O': the union over a non-empty sub-list of children (as [GateTree.Admits]);
+    '*' and other operators admit nothing (a tree that needs them does not satisfy [im_fits]). *)
+Inductive padmits : ptree -> eset -> Prop :=
+| pa_leaf e : padmits (PLeaf e) [e]
+| pa_tau : padmits PTau []
+| pa_xor cs c s : In c cs -> padmits c s -> padmits (PNode PXor cs) s
+| pa_and cs ss s : Forall2 padmits cs ss -> s = big_union ss -> padmits (PNode PAnd cs) s
+| pa_seq cs ss s : Forall2 padmits cs ss -> s = big_union ss -> padmits (PNode PSeq cs) s
+| pa_or cs sub ss s :
+    Sub sub cs -> sub <> [] -> Forall2 padmits sub ss -> s = big_union ss ->
+    padmits (PNode POr cs) s.
+
+(** executable version *)
+Definition pcomb (op : pop) : list (list eset) -> list eset :=
+  match op with
+  | PAnd | PSeq => and_comb
+  | POr => or_comb
+  | PXor => xor_comb
+  | PLoop | POther => fun _ => []
+  end.
+
+Fixpoint poutcomes (t : ptree) : list eset :=
+  match t with
+  | PLeaf e => [[e]]
+  | PTau => [[]]
+  | PNode op cs => norm_sets (pcomb op (map poutcomes cs))
+  end.
+
+Definition padmits_b (t : ptree) (s : eset) : bool := mem (norm s) (poutcomes t).
+
+(** ** Hypotheses of the soundness theorem, as booleans *)
+
+(** the miner's tree replays every observed set (Leemans' fitness guarantee, here a hypothesis) *)
+Definition im_fits_b (F : list eset) (t : ptree) : bool :=
+  let O := poutcomes t in forallb (fun s => mem (norm s) O) F.
+
+Fixpoint pleaves (t : ptree) : list positive :=
+  match t with
+  | PLeaf e => [e]
+  | PTau => []
+  | PNode _ cs => flat_map pleaves cs
+  end.
+
+(** may admit the empty set *)
+Fixpoint pnullable (t : ptree) : bool :=
+  match t with
+  | PLeaf _ => false
+  | PTau => true
+  | PNode op cs =>
+      match op with
+      | PXor | POr => existsb pnullable cs
+      | PAnd | PSeq => forallb pnullable cs
+      | PLoop | POther => false
+      end
+  end.
+
+Fixpoint pall (p : ptree -> bool) (t : ptree) : bool :=
+  p t && match t with PNode _ cs => forallb (pall p) cs | _ => true end.
+
+Definition leaf_or_xor (c : ptree) : bool :=
+  match c with PLeaf _ | PNode PXor _ => true | _ => false end.
+
+(** only 'X' and '+' operators; every child of a '+' node is a labelled leaf or an 'X' node (so that
+    the classification of l.311-318 drops nothing) *)
+Definition gate_l (t : ptree) : bool :=
+  match t with
+  | PNode PXor _ => true
+  | PNode PAnd cs => forallb leaf_or_xor cs
+  | PNode _ _ => false
+  | _ => true
+  end.
+
+(** every operator node has a labelled leaf below it *)
+Definition labelful_l (t : ptree) : bool :=
+  match t with PNode _ _ => negb (is_nil (pleaves t)) | _ => true end.
+
+Definition shape_l (t : ptree) : bool := gate_l t && labelful_l t.
+
+(** [im_shape]: the above at every node, and every activity labels exactly one leaf *)
+Definition im_shape_b (t : ptree) : bool := pall shape_l t && nodupb (pleaves t).
+
+(** [im_tight]: whenever an observed set meets the leaves of a '+' node, it meets the leaves of each of
+    its 'X' children that has no tau child (a mandatory branch is not replayed by the empty run).
+    The inductive miner puts [X(tau, .)] on top of a sub-log that contains the empty trace, so a
+    branch without that tau was discovered from a sub-log in which it always contributes. *)
+Definition p_is_tau_child (c : ptree) : bool :=
+  match c with PNode PXor gcs => existsb is_ptau gcs | _ => false end.
+
+Definition tight_l (F : list eset) (t : ptree) : bool :=
+  match t with
+  | PNode PAnd cs =>
+      forallb (fun s => is_empty (inter s (pleaves t))
+                        || forallb (fun c => p_is_tau_child c || negb (is_empty (inter s (pleaves c)))) cs) F
+  | _ => true
+  end.
+
+Definition im_tight_b (F : list eset) (t : ptree) : bool := pall (tight_l F) t.
+
+(** no observed set straddles the universe of an OR node that [process_missing_and_gates] rebuilds *)
+Definition straddle_free_l (F : list eset) (t : ptree) : bool :=
+  match t with
+  | PNode POr cs =>
+      implb (forallb is_pleafish cs)
+            (let U := flat_map plabel cs in
+             forallb (fun s => is_empty (inter s U) || subsetb s U) F)
+  | _ => true
+  end.
+
+Definition straddle_free_b (F : list eset) (t : ptree) : bool := pall (straddle_free_l F) t.
+
+(** the same, evaluated on the tree [process_missing_and_gates] receives *)
+Definition cover_safe_b (F : list eset) (t : ptree) : bool :=
+  match process_or_gates F t with
+  | FOk t1 => straddle_free_b F t1
+  | _ => false
+  end.
+
+Definition nonempty_sets_b (F : list eset) : bool := forallb (fun s => negb (is_empty s)) F.
